@@ -20,7 +20,7 @@ from harness import core
 SPEC_DIR = os.path.join(core.SPECS, "msm")
 INVS = ["RowStochastic", "NormalizeIsCountsOverRowsum", "PriorFirst", "PiIsDistribution", "Stationary",
         "PiDivisible", "DetailedBalance", "ContainerRule", "Safe"]
-FORMATS = ["csr", "csc", "coo", "lil", "dok", "dia", "bsr"]
+FORMATS = ["csr", "csc", "coo", "lil", "dok", "dia", "bsr", "coodup"]
 
 SCOPES = {"quick": [dict(N=2, MaxC=3), dict(N=3, MaxC=1)],
           "thorough": [dict(N=2, MaxC=4), dict(N=3, MaxC=2)]}
@@ -33,6 +33,13 @@ def make(container, C, dtype="int64"):
     import scipy.sparse as sp
     if container == "ndarray":
         return np.array(C, dtype=dtype)
+    if container == "coodup":
+        # the form assigns_to_counts returns: a COO matrix holding one entry of value 1 per observed transition,
+        # i.e. repeated coordinates that only sum to the count
+        A = np.array(C, dtype=np.int64)
+        i, j = np.nonzero(A)
+        reps = A[i, j]
+        return sp.coo_matrix((np.ones(int(reps.sum()), dtype=dtype), (np.repeat(i, reps), np.repeat(j, reps))), shape=A.shape)
     return getattr(sp, container + "_matrix")(np.array(C, dtype=dtype))
 
 
@@ -109,7 +116,7 @@ def replay_case(arg):
 def run(ctx):
     ctx.rule = ("TLC enumerates every count matrix with entries 0..MaxC and all row sums > 0 x builder x prior; "
                 "non-trivial = strongly connected and not symmetric; distinct by (C, builder, prior); each case "
-                "is replayed for ndarray + 7 sparse-matrix formats x calculate_eq_probs")
+                "is replayed for ndarray + 7 sparse-matrix formats + a COO matrix with repeated coordinates x element types x calculate_eq_probs")
     ctx.assumptions += ["sparse *matrix* containers (csr..bsr) as listed by the property; sparse *arrays* are outside its quantifier",
                         "stationarity compared only for strongly connected chains (unique stationary vector)"]
     b = core.build_repo()
@@ -144,7 +151,7 @@ def run(ctx):
             if ctx.tier == "thorough" or k % 4 == 0:
                 conts = ["ndarray"] + FORMATS
             else:
-                conts = ["ndarray", "csr", FORMATS[1 + k % 6]]
+                conts = ["ndarray", "csr", FORMATS[1 + k % 7]]
             args.append((c, conts))
         out = core.pmap(replay_case, args, chunk=50)
         for (c, conts), bad in zip(args, out):
